@@ -29,8 +29,10 @@ from vf.common import DISCHARGED, VIOLATED, INCONCLUSIVE, HARNESS_ERROR
 QUICK = {"rref": [(2, 2), (2, 3), (3, 2), (3, 3), (3, 4)], "rank": [(2, 3), (3, 3), (3, 4), (4, 3)], "solve": [2, 3],
          "indep": [(2, 1), (3, 2)], "basis": [(2, 3), (3, 3)]}
 THOROUGH = {"rref": [(2, 2), (2, 3), (3, 2), (3, 3), (3, 4), (4, 3), (4, 4), (4, 5), (5, 4), (5, 5)],
-            "rank": [(2, 3), (3, 3), (3, 4), (4, 3), (4, 4), (4, 5), (5, 5), (5, 6)], "solve": [2, 3, 4, 5],
-            "indep": [(2, 1), (3, 2), (4, 2), (4, 3)], "basis": [(2, 3), (3, 3), (3, 4), (4, 4)]}
+            "rank": [(2, 3), (3, 3), (3, 4), (4, 3), (3, 5), (5, 3)], "solve": [2, 3, 4],
+            "indep": [(2, 1), (3, 2), (4, 2), (4, 3)], "basis": [(2, 3), (3, 3), (3, 4)]}
+# beyond these shapes the number of control-flow paths of rank / solve / select_basis exceeds the budget (60000 paths or 50 minutes per shape:
+# rank 4x4, 4x5, 5x5, 5x6, solve 5x5 and select_basis 4x4 were tried and stay undecided) - stated as outside
 
 
 def vecs(n):
